@@ -51,6 +51,7 @@ ASSUMPTIONS = [
     "resets lazy collections; refresh() expires first, then autoflushes, then loads; rollback() without a transaction in progress is a "
     "pass-through; setting an attribute to its loaded value is no net change (no UPDATE)",
     "trusted: sqlite3 raw connection as independent observer/writer",
+    "sub-check m2o: expire_on_commit on, autoflush off, one-directional relationship; rollback() without a transaction in progress expires nothing; None is assigned to a reference only after it was read",
 ]
 
 ATTRS = ["id", "x", "y", "name", "children"]
@@ -995,6 +996,7 @@ def check_m2o(case, ctx):
         sess.rollback()  # end the read transaction; loaded column values stay (rollback expires them: see below)
         for k in kids:
             st_[k] = ("E",)
+        in_txn = False  # the Session begins its transaction on the first modification / load / flush, not on expire()
         for ei, ep in enumerate(case["epochs"]):
             for kid_i, newp in ep["ext"]:
                 kid = kid_i % len(kids) + 1
@@ -1008,7 +1010,14 @@ def check_m2o(case, ctx):
                 ch = kids[kid]
                 if op[0] == "set":
                     v = None if op[2] is None else op[2] % n_p + 1
+                    if v is None and st_[kid][0] == "E":
+                        # `obj.ref = None` on an unloaded reference records nothing (the old value is unknown and active_history is
+                        # off): the program reads the reference first, as an application that wants the NULL written has to
+                        _ = ch.parent
+                        st_[kid] = ("L", db[kid])
+                        classes.add("load-before-set-none")
                     ch.parent = parents[v] if v is not None else None
+                    in_txn = True
                     s0 = st_[kid]
                     # ('P', value, original): re-assigning the held value is no net change (nothing is written, even if the row moved on)
                     orig = s0[2] if s0[0] == "P" else (s0[1] if s0[0] == "L" else NOVAL)
@@ -1023,6 +1032,7 @@ def check_m2o(case, ctx):
                     st_[kid] = ("E",)
                 elif op[0] == "refresh":
                     sess.refresh(ch, ["parent", "parent_id"])
+                    in_txn = True
                     st_[kid] = ("L", db[kid])
                 else:  # read
                     got = ch.parent
@@ -1036,6 +1046,7 @@ def check_m2o(case, ctx):
                                         observed=got_id, expected=exp)
                     if s0[0] == "E":
                         st_[kid] = ("L", exp)
+                        in_txn = True
                         nontrivial = True
                     classes.add("read-" + s0[0])
             if ep["end"] == "commit":
@@ -1044,13 +1055,31 @@ def check_m2o(case, ctx):
                     if s0[0] == "P":
                         db[k] = s0[1]
                     st_[k] = ("E",) if case["eoc"] else (("L", s0[1]) if s0[0] != "E" else s0)
+                if not case["eoc"]:
+                    # "expired" means: possibly re-loaded since, at the implementation's discretion (the flush of a commit loads what it
+                    # needs of an object that is still flagged modified).  Inside one transaction the row cannot change, so a reference
+                    # found loaded here holds this transaction's value; inspect(obj).unloaded decides which branch applies
+                    from sqlalchemy import inspect as _insp
+
+                    for k, s0 in st_.items():
+                        if s0[0] == "E" and "parent" not in _insp(kids[k]).unloaded:
+                            held = kids[k].__dict__.get("parent")
+                            if (None if held is None else held.id) != db[k]:
+                                raise Violation("C46/m2o/reloaded-value-differs-from-row", f"epoch {ei}: child {k}.parent was re-loaded during the commit as {held!r}, row says {db[k]}")
+                            st_[k] = ("L", db[k])
+                            classes.add("reloaded-during-commit")
                 row = dict(rc.execute("SELECT id, parent_id FROM mchild").fetchall())
                 if row != db:
                     raise Violation("C46/m2o/committed-rows", f"after commit of epoch {ei}: rows {row} != model {db}", observed=row, expected=db)
+                in_txn = False
             else:
                 sess.rollback()
-                for k in st_:
-                    st_[k] = ("E",)
+                if in_txn:  # rollback() without a transaction in progress does nothing, in particular it expires nothing
+                    for k in st_:
+                        st_[k] = ("E",)
+                else:
+                    classes.add("rollback-without-transaction")
+                in_txn = False
         ctx.note(case, nontrivial, classes=sorted(classes))
     finally:
         if sess is not None:
@@ -1072,7 +1101,10 @@ def _m2o_programs(draw):
     for i in range(draw(st.integers(1, 3))):
         ext = [list(t) for t in draw(st.lists(st.tuples(st.integers(0, 2), pv), max_size=2))]
         epochs.append({"ext": ext, "ops": draw(st.lists(op, min_size=1, max_size=8)), "end": draw(st.sampled_from(["commit", "commit", "rollback"]))})
-    return {"n_p": n_p, "kids": kids, "eoc": draw(st.booleans()), "epochs": epochs}
+    # expire_on_commit stays on: with it off, a foreign key value re-loaded during one commit is legitimately held across the next external
+    # change and the lazy load of the reference goes by that held value (loaded attributes are never refreshed unasked) - a second state
+    # machine for the FK column would be needed to predict it, which this sub-check does not have
+    return {"n_p": n_p, "kids": kids, "eoc": True, "epochs": epochs}
 
 
 def subs(tier):
